@@ -22,6 +22,8 @@ pub enum Score {
     Perm(Vec<usize>),
     RcMinPerm(Vec<usize>),
     Binary,
+    Shifted,
+    Hash64,
 }
 impl Score {
     fn name(&self) -> &'static str {
@@ -34,6 +36,8 @@ impl Score {
             Score::Perm(_) => "perm",
             Score::RcMinPerm(_) => "rcmin-perm",
             Score::Binary => "binary",
+            Score::Shifted => "rank<<32",
+            Score::Hash64 => "hash64",
         }
     }
     fn eval<P: Kmer>(&self, x: &P) -> usize {
@@ -47,13 +51,23 @@ impl Score {
             Score::Perm(p) => p[x.to_u64() as usize],
             Score::RcMinPerm(p) => std::cmp::min(p[x.to_u64() as usize], p[x.rc().to_u64() as usize]),
             Score::Binary => (x.get(0) & 1) as usize,
+            // scores far above 2^32: the scanner must compare the full usize
+            Score::Shifted => ((n - 1 - x.to_u64() as usize) << 32) | 5,
+            Score::Hash64 => {
+                let mut z = (x.to_u64()).wrapping_add(0x9E3779B97F4A7C15);
+                z = (z ^ (z >> 30)).wrapping_mul(0xBF58476D1CE4E5B9);
+                z = (z ^ (z >> 27)).wrapping_mul(0x94D049BB133111EB);
+                ((z ^ (z >> 31)) | (1u64 << 40)) as usize
+            }
         }
     }
 }
 
 fn gen_score(r: &mut Rng, p: usize) -> Score {
     let n = 1usize << (2 * p);
-    match r.below(9) {
+    match r.below(11) {
+        9 => Score::Shifted,
+        10 => Score::Hash64,
         0 => Score::Rank,
         1 => Score::RevRank,
         2 => Score::Constant,
@@ -71,6 +85,14 @@ fn gen_score(r: &mut Rng, p: usize) -> Score {
         }
         _ => Score::Binary,
     }
+}
+
+/// order-preserving re-encoding of scores as dense ranks (TLC integers are 32 bit; the oracle only compares scores)
+fn dense_ranks(v: &[usize]) -> Vec<usize> {
+    let mut u: Vec<usize> = v.to_vec();
+    u.sort();
+    u.dedup();
+    v.iter().map(|x| u.binary_search(x).unwrap()).collect()
 }
 
 fn scan_with<P: Kmer, V: Vmer>(v: &V, k: usize, score: &Score) -> Vec<Value> {
@@ -103,7 +125,7 @@ fn scan_event<P: Kmer>(sink: &Sink, r: &mut Rng) {
     let vt = *r.pick(&vts);
     let vt = if vt == "Lmer3" && len > 92 { "DnaBytes" } else { vt };
     let scores: Vec<usize> = if len >= p { (0..=(len - p)).map(|i| score.eval(&P::from_bytes(&seq[i..i + p]))).collect() } else { vec![] };
-    let desc = json!({"op":"scan","k":k,"p":p,"seq":seq,"sc":scores,"score":score.name(),"vt":vt,"fn":"scanner"});
+    let desc = json!({"op":"scan","k":k,"p":p,"seq":seq,"sc":dense_ranks(&scores),"score":score.name(),"vt":vt,"fn":"scanner"});
     let case = sink.begin_case(&desc);
     let res = guard(|| match vt {
         "DnaString" => scan_with::<P, _>(&DnaString::from_bytes(&seq), k, &score),
@@ -143,7 +165,7 @@ fn scan_event<P: Kmer>(sink: &Sink, r: &mut Rng) {
         let rc = r.chance(1, 2);
         let sc2 = if rc { Score::RcMinPerm(perm.clone()) } else { Score::Perm(perm.clone()) };
         let scores: Vec<usize> = (0..=(len - p)).map(|i| sc2.eval(&P::from_bytes(&seq[i..i + p]))).collect();
-        let desc = json!({"op":"scan","k":k,"p":p,"seq":seq,"sc":scores,"score":"perm","vt":"DnaBytes","fn":"simple_scan","rc":rc});
+        let desc = json!({"op":"scan","k":k,"p":p,"seq":seq,"sc":dense_ranks(&scores),"score":"perm","vt":"DnaBytes","fn":"simple_scan","rc":rc});
         let case = sink.begin_case(&desc);
         #[allow(deprecated)]
         let res = guard(|| {
